@@ -193,6 +193,15 @@ func oracleC12(x *Exec, so *StepObs) {
 					fail("all-hooks-run", "none", fmt.Sprintf("%s hook %s was never created although the operation succeeded", phase, h.id))
 					return false
 				}
+				// an uninstall that went through with the delete event (the release ends uninstalled or purged) fired
+				// post-delete: its hooks run even when the operation reports an error for another reason (e.g. the wait)
+				if op.Op == "uninstall" && phase == post {
+					lastAfter := so.After.Rev(so.After.MaxRev())
+					if lastAfter == nil || lastAfter.Status == "uninstalled" {
+						fail("all-hooks-run", "release-deleted-with-error", fmt.Sprintf("post-delete hook %s was never created although the release was deleted (the uninstall reported: %s)", h.id, trunc(r.Err, 120)))
+						return false
+					}
+				}
 				return false
 			}
 			p := posts[idx]
@@ -384,6 +393,14 @@ func genC12(seed, index uint64, tier string) *Plan {
 		si := g.N(len(p.Steps))
 		p.Steps[si].Faults = []FaultSpec{{Kind: FHookFail, Pred: &Pred{Nth: 1 + g.N(4)}}}
 	}
+	if p.Variant == "clean" && g.Chance(0.4) {
+		// the wait for the release's own resources times out. (Timeouts of the wait that follows the DELETE of a hook
+		// object are outside this property's fault space, "every single hook failing in turn", and are not injected.)
+		p.Variant = "wait-fail"
+		si := g.N(len(p.Steps))
+		p.Steps[si].Op.Wait = true
+		p.Steps[si].Faults = []FaultSpec{{Kind: FNotReady, Pred: &Pred{Nth: 1, PathNot: "/hk-"}}}
+	}
 	return p.Clone()
 }
 
@@ -397,6 +414,9 @@ func sweepBaseC12(seed, index uint64, tier string) *Plan {
 func sweepKindsC12(p *Plan, step int, call string) []FaultSpec {
 	if strings.HasPrefix(call, "WATCH ") {
 		return []FaultSpec{{Kind: FHookFail}}
+	}
+	if (strings.HasPrefix(call, "WAIT ") || strings.HasPrefix(call, "WAITDEL ")) && !strings.Contains(call, "/hk-") {
+		return []FaultSpec{{Kind: FNotReady}}
 	}
 	return nil
 }
